@@ -157,8 +157,10 @@ class Model:
         self.inject = inject  # (owner name, flat index, time)
         self._fam_ub = {}  # family -> ultimate base object (strong ref)
         self.anc = {}  # (family, version) -> set of ancestor (family, version) nodes (liberal dataflow)
-        for name, shape, offset, const in init:
+        for name, shape, offset, const, *rest in init:
             arr = leaf_values(shape, offset, seed).astype(dtype)
+            if rest and rest[0] == "F":
+                arr = np.asfortranarray(arr)
             self._new_owner(name, arr, const)
         self._maybe_inject()
 
@@ -306,6 +308,29 @@ class Model:
             self.a[tgt].shape = shape
             self.tag[tgt].shape = shape
 
+    # graph-clearing statements: for the NumPy model they only matter to the complex-step runs,
+    # where tensors whose creator was cleared become leaves for *later* statements (detach).
+    # `self.detach` = {time: [slot names]} is observed on the implementation (walk of the real graph).
+    detach = None
+
+    def _do_detach(self):
+        names = (self.detach or {}).get(self.time, ())
+        if self.dtype != np.complex128 or self.inject is None:
+            return
+        pf = self.fam.get(self.inject[0])
+        for n in names:
+            if n in self.a and self.fam[n] != pf:
+                self.a[n].imag = 0.0
+
+    def _backward(self, name):
+        self._do_detach()
+
+    def _clear(self, name):
+        self._do_detach()
+
+    def _null_grad(self, name):
+        pass
+
     def _del(self, name):
         self.order.remove(name)
         for d in (self.a, self.tag, self.const, self.created):
@@ -337,8 +362,11 @@ class Impl:
         self.mg = mg
         self.t = {}
         self.order = []
-        for name, shape, offset, const in init:
-            self.t[name] = mg.tensor(leaf_values(shape, offset, seed), constant=const)
+        for name, shape, offset, const, *rest in init:
+            v = leaf_values(shape, offset, seed)
+            if rest and rest[0] == "F":
+                v = np.asfortranarray(v)
+            self.t[name] = mg.tensor(v, constant=const)
             self.order.append(name)
 
     def value_of(self, val):
@@ -399,6 +427,33 @@ class Impl:
         self.order.remove(name)
         del self.t[name]
 
+    def upstream_slots(self, name):
+        """names of live slots whose tensor object is reachable from `name` through
+        creator.variables in the implementation's graph (what clear_graph will visit)"""
+        stack = [self.t[name]]
+        seen = set()
+        while stack:
+            u = stack.pop()
+            if id(u) in seen:
+                continue
+            seen.add(id(u))
+            c = u._creator
+            if c is not None:
+                stack.extend(c.variables)
+        del stack
+        return [n for n in self.order if id(self.t[n]) in seen]
+
+    def _backward(self, name):
+        self.detached = self.upstream_slots(name)
+        self.t[name].backward()
+
+    def _clear(self, name):
+        self.detached = self.upstream_slots(name)
+        self.t[name].clear_graph()
+
+    def _null_grad(self, name):
+        self.t[name].null_grad()
+
 
 # ------------------------------------------------------------------ rendering histories as scripts
 def render_val(val):
@@ -449,8 +504,11 @@ def script(init, history, seed=0, tail=""):
         "    n = int(np.prod(shape)) if len(shape) else 1",
         "    return (np.arange(n).reshape(shape) + phase) % 2 == 0",
     ]
-    for name, shape, offset, const in init:
-        lines.append("%s = mg.tensor(%s, constant=%r)" % (name, np.array2string(leaf_values(tuple(shape), offset, seed), separator=", ").replace("\n", ""), const))
+    for name, shape, offset, const, *rest in init:
+        val = "np.array(%s)" % np.array2string(leaf_values(tuple(shape), offset, seed), separator=", ").replace("\n", "")
+        if rest and rest[0] == "F":
+            val = "np.asfortranarray(%s)" % val
+        lines.append("%s = mg.tensor(%s, constant=%r)" % (name, val, const))
     for st in history:
         lines.append(render(tuple(st)))
     return "\n".join(lines) + "\n" + tail
